@@ -26,9 +26,9 @@ func init() {
 func runC01(c *Ctx) {
 	c.Rule("R1.1", "UpgradeBatch writes only when the present knob is behind the desired one (monotone knob, sibling rule)", 7)
 	c.Rule("R1.2", "currentBatch only moves under batchPartition", 2)
-	c.Rule("R1.3", "batchPartition written by the Rollout controller is currentStepIndex-1", 6)
+	c.Rule("R1.3", "batchPartition written by the Rollout controller is currentStepIndex-1", 4)
 	c.Rule("R1.4", "planned replica count is clamped to [0, replicas] and is what reaches the knob", 9)
-	c.Rule("R1.5", "replica percentages are scaled with roundUp=true", 20)
+	c.Rule("R1.5", "replica percentages are scaled with roundUp=true", 16)
 	c.Rule("R1.6", "the executor acts only on a persisted status", 2)
 
 	checkMonotoneKnob(c, "R1.1")
